@@ -82,7 +82,17 @@ pub fn gen_c14(seed: u64, _thorough: bool) -> Plan {
         }
         name = out;
     }
-    let port = g.range(1, 65535) as u16;
+    // bytes that are delimiters somewhere in the carrying formats (CR LF of the Trojan request line and of HTTP, NUL, ':', '/',
+    // ' ', '@', '?', '#', '%'): inside a length-prefixed or fixed-width binary field they are ordinary bytes
+    if kind == "socks5-bytes" && len >= 4 && g.chance(35) {
+        let pool: [&[u8]; 12] = [b"\r\n", b"\n", b"\r\n\r\n", b"\0", b":", b"/", b" ", b"@", b"?", b"#", b"%0d%0a", b"\r"];
+        let d: &[u8] = pool[g.below(pool.len() as u64) as usize];
+        if d.len() < len {
+            let at = g.range(0, (len - d.len()) as u64) as usize;
+            name[at..at + d.len()].copy_from_slice(d);
+        }
+    }
+    let port = if g.chance(15) { *g.pick(&[0x0d0au16, 0x0a0d, 0x0d0d, 0x0a0a, 0x000d, 0x000a, 0x0d00, 0x0a00, 0x2f2f, 0x3a3a, 0x2020, 0x0001, 0xffff, 0x0100, 0x00ff]) } else { g.range(1, 65535) as u16 };
     let payload_len = g.range(1, 400) as usize;
     Plan {
         property: "C14".into(),
